@@ -90,11 +90,25 @@ static void sock_bufs(int small)
     if (small) {
         setsockopt(1, SOL_SOCKET, SO_SNDBUF, &v, sizeof v);
     } else {
+        /* as large as the system allows: the plain options are clamped to the sysctl limits, the FORCE ones need a
+         * privilege the sandbox may not give */
+        setsockopt(1, SOL_SOCKET, SO_SNDBUF, &v, sizeof v);
+        setsockopt(sock_peer, SOL_SOCKET, SO_RCVBUF, &v, sizeof v);
+        setsockopt(sock_peer, SOL_SOCKET, SO_SNDBUF, &v, sizeof v);
+        setsockopt(0, SOL_SOCKET, SO_RCVBUF, &v, sizeof v);
         setsockopt(1, SOL_SOCKET, SO_SNDBUFFORCE, &v, sizeof v);
         setsockopt(sock_peer, SOL_SOCKET, SO_RCVBUFFORCE, &v, sizeof v);
         setsockopt(sock_peer, SOL_SOCKET, SO_SNDBUFFORCE, &v, sizeof v);
         setsockopt(0, SOL_SOCKET, SO_RCVBUFFORCE, &v, sizeof v);
     }
+}
+
+static int sock_capacity(void)
+{
+    int v = 0;
+    socklen_t l = sizeof v;
+    getsockopt(1, SOL_SOCKET, SO_SNDBUF, &v, &l);
+    return v;
 }
 
 static void sock_drain(void)
@@ -651,6 +665,8 @@ int event_base_dispatch(struct event_base *b)
 
     dispatch_reached = 1;
     step(b);
+    if (sock_mode)
+        sim_note("SOCKBUF %d", sock_capacity());
     reply("READY");
     while (rd_line(ctl_in, hdr, sizeof hdr) > 0) {
         if (!strncmp(hdr, "FEED ", 5)) {
